@@ -715,15 +715,15 @@ def correspondence(ctx):
         sample("core_maths", 3, None, None)
         sample("core_maths", 2, None, None)
         sample("core_maths", 1, None, None)
-        sample("core_maths", 4, 1500, None)
-        sample("keep_duplicates", 3, 1200, None)
-        sample("keep_duplicates", 2, 150, None)
+        sample("core_maths", 4, 500, None)
+        sample("keep_duplicates", 3, 400, 150)
+        sample("keep_duplicates", 2, 100, None)
         for bs, n in (("core_maths", 3), ("core_maths", 4), ("keep_duplicates", 3)):     # multi-interrupt sets
             c = cens.get((bs, n))
             if c and c.get("status") == "ok":
                 intp = interesting_positions(tab, c)
                 allp = positions(c)
-                for _ in range(150):
+                for _ in range(70):
                     m = rng.choice([2, 2, 3, 5])
                     ks = {}
                     for k, j in rng.sample(intp, min(m, len(intp))) + rng.sample(allp, 1):
@@ -763,9 +763,13 @@ def correspondence(ctx):
         prem = "fst p && snd p" if x["mode"] == "census" else "snd p"
         for cidx, term in mi["calls"]:
             call_terms.append((tagbase + ("call", cidx), "(let p := %s in %s)" % (term, prem)))
-        if mi["lib"]:
+        # whole-run replays are the expensive ones: always in quick; in thorough for every run whose interrupted block
+        # had already changed data (where stale state can exist), for the multi-interrupt sets, and for a sample of the rest
+        data_cut = any(any(e in DATA_EFFS for ln in b["lines"] for l2, e, _ in tab[b["kind"]]["rows"] if l2 == ln) for b in fired)
+        whole = ctx.quick or x["mode"] == "census" or x.get("corpus_key") or data_cut or len(fired) > 1 or rng.random() < 0.1
+        if mi["lib"] and whole:
             lib_terms.append((tagbase + ("rounds",), "(let p := %s in fst p && snd p)" % mi["lib"]))
-        if mi["chk"]:
+        if mi["chk"] and (whole or any(b["kind"] == "KR" for b in fired)):
             chk_terms.append((tagbase + ("check_results",), mi["chk"]))
         rep.case(key=tagbase, nontrivial=bool(fired),
                  sample={"basis": x["runname"], "n": x["n"], "plan": x["plan"] if len(json.dumps(x["plan"])) < 200 else "…", "status": x["status"],
